@@ -989,11 +989,12 @@ class ExprMixin:
         lt = T.ListV(v.ty)
         y = v.ty.fresh("y")
         elems = z3.Lambda([y], z3.Exists(bound, z3.And(guard, y == v.z)))
-        res, st3 = self.fresh(lt, "comp", st2.clone(binder=st.binder))
-        e = z3.K(v.ty.sort(), z3.BoolVal(False))
-        xs = bound
-        none = z3.Not(z3.Exists(xs, guard))
-        st3 = st3.assume(lt.elems(res.z) == elems, (lt.len(res.z) == 0) == none)
+        # the list view is built directly from the image set (no equation with a lambda in the path
+        # condition unless the element set is actually used)
+        nlen = z3.FreshConst(z3.IntSort(), "complen")
+        res = V(lt, lt.mk(elems, nlen))
+        none = z3.Not(z3.Exists(bound, guard))
+        st3 = st2.clone(binder=st.binder).assume(nlen >= 0, (nlen == 0) == none)
         res.aux = ("image", bound, guard, v)
         yield st3.clone(env=st.env), res
 
